@@ -9,7 +9,7 @@ use crate::world::{SlotKind, World};
 
 pub const DIM_NAMES: &[&str] = &["DPT", "SEC", "Ctr_1", "a.b", "x-y", "Low Secret", "R2", "Z", "ORG", "lvl 2"];
 pub const ATTR_NAMES: &[&str] = &["FIN", "HR", "LOW", "TOP", "m_1", "q.r", "u-v", "Top Secret", "A", "b2", "MKG", "DEV", "RD", "k 9"];
-pub const LENGTHS: &[usize] = &[0, 1, 11, 12, 13, 15, 16, 17, 31, 32, 33, 255, 256, 4095, 4096, 4097];
+pub const LENGTHS: &[usize] = &[0, 1, 11, 12, 13, 15, 16, 17, 31, 32, 33, 127, 128, 255, 256, 4095, 4096, 4097, 16383, 16384, 70001];
 
 #[derive(Clone, Debug)]
 pub struct Swarm {
@@ -28,6 +28,11 @@ pub struct Swarm {
     /// Weights of the operation kinds (index = Op as usize); 0 = disabled in this run.
     pub w: Vec<u32>,
     pub kinds: Vec<u8>, // enabled encryption kinds: 0 kem, 1 pke, 2 header
+    /// Scale knobs (each on in a few percent of runs): attribute ids pushed beyond 127 (two-byte
+    /// LEB128 in rights) by add/delete churn before the real structure is built; names of 128+
+    /// bytes (two-byte length prefixes).
+    pub big_ids: bool,
+    pub long_names: bool,
 }
 
 #[derive(Clone, Copy, Debug, PartialEq, Eq)]
@@ -218,6 +223,8 @@ impl Swarm {
             reload_pct: 0,
             w,
             kinds,
+            big_ids: rng.pct(6),
+            long_names: rng.pct(6),
         }
     }
 }
@@ -326,6 +333,11 @@ impl Gen {
     }
 
     fn fresh_attr_name(&mut self, rng: &mut Rng, d: &MDim) -> String {
+        if self.sw.long_names && rng.pct(50) {
+            self.name_ctr += 1;
+            let pad = rng.range(128, 200);
+            return format!("long{}_{}", self.name_ctr, "x".repeat(pad));
+        }
         for _ in 0..4 {
             let n = rng.pick(ATTR_NAMES).to_string();
             if !d.attrs.iter().any(|a| a.name == n) {
@@ -346,6 +358,14 @@ impl Gen {
             let hierarchy = rng.pct(self.sw.hierarchy_pct);
             let dname = names[di].to_string();
             evs.push(Ev::AddDim { name: dname.clone(), hierarchy });
+            if di == 0 && self.sw.big_ids {
+                // churn: push the attribute-id counter beyond 127
+                for k in 0..rng.range(125, 135) {
+                    let n = format!("churn{k}");
+                    evs.push(Ev::AddAttr { dim: dname.clone(), name: n.clone(), hybrid: false, after: None });
+                    evs.push(Ev::DelAttr { dim: dname.clone(), name: n });
+                }
+            }
             let mut d = MDim { name: dname.clone(), hierarchy, attrs: vec![] };
             let n_attrs = if rng.pct(5) { 0 } else { rng.range(1, self.sw.max_attrs) };
             for _ in 0..n_attrs {
